@@ -86,7 +86,7 @@ def build_asset(a, nodes, tz=None):
     kw = {}
     node_names = a.pop("nodes", None)
     for k, v in a.items():
-        if k.startswith("_"):
+        if k.startswith("_") and k != "_no_heat":
             continue  # generator annotations, not constructor arguments
         if k in DATE_KEYS:
             kw[k] = ts(v, tz)
